@@ -35,6 +35,10 @@ import (
 
 const f4T = 10 // block interval (thor default)
 
+// F17Class: the single-node consequence (an honest node's own proposal off its finalized branch moves finalized to a
+// conflicting checkpoint).
+const F17Class = "finalized-not-monotone:own-proposal-off-finalized-branch"
+
 // F4Class identifies the finding in known_findings.json.
 const F4Class = "safety:conflicting-finality:own-vote-left-quality-window"
 
@@ -316,6 +320,10 @@ func (w *RealWorld) onChain(a, b thor.Bytes32) bool {
 }
 
 type F4RealResult struct {
+	NonMonotone bool   // one honest node's finalized moved to a block that does not descend from its previous finalized
+	MonoNode    string // that node, and the two checkpoints
+	MonoFrom    string
+	MonoTo      string
 	Conflict    bool
 	A, B        string // names of two conflicting finalized checkpoints held by honest nodes
 	NodeA       string
@@ -325,7 +333,14 @@ type F4RealResult struct {
 }
 
 // F4Real runs the history. Clocks are in slots after genesis.
-func F4Real() (*F4RealResult, error) {
+func F4Real() (*F4RealResult, error) { return f4Real(false) }
+
+// F4RealOwnProposal: the same history until 18Y; then v1 (whose best block is 18Y) receives 10X and 11X - it finalizes 4X by
+// import while its best block stays on Y (higher quality) - and packs the store point 19Y itself: proposeAndCommit has no
+// Accepts test, CommitBlock finalizes 12Y, which conflicts with 4X. One honest node, one Byzantine validator of four.
+func F4RealOwnProposal() (*F4RealResult, error) { return f4Real(true) }
+
+func f4Real(ownProposal bool) (*F4RealResult, error) {
 	keys := F4Keys()
 	if keys == nil {
 		return nil, fmt.Errorf("no key set with the needed scheduler orders in the pool")
@@ -425,9 +440,15 @@ func F4Real() (*F4RealResult, error) {
 	deliver(v3, 72, "14Y", "15Y", "16Y")
 	honest(v3, "17Y", "16Y", 72)
 	byz("18Y", "17Y", 76, &yes)
-	byz("19Y", "18Y", 78, &yes)
-	deliver(v1, 80, "17Y", "18Y", "19Y")
-	deliver(v3, 80, "18Y", "19Y")
+	if ownProposal {
+		deliver(v1, 80, "17Y", "18Y")
+		deliver(v1, 81, "10X", "11X")
+		honest(v1, "19Y'", "18Y", 82)
+	} else {
+		byz("19Y", "18Y", 78, &yes)
+		deliver(v1, 80, "17Y", "18Y", "19Y")
+		deliver(v3, 80, "18Y", "19Y")
+	}
 	res := &F4RealResult{Log: w.Log, HonestOnBest: firstErr == nil}
 	if firstErr != nil {
 		return res, firstErr
@@ -440,6 +461,13 @@ func F4Real() (*F4RealResult, error) {
 						res.Conflict, res.A, res.B, res.NodeA, res.NodeB = true, w.nameOf(fa), w.nameOf(fb), a.Name, b.Name
 					}
 				}
+			}
+		}
+	}
+	for _, n := range w.Nodes[:3] {
+		for k := 1; k < len(n.Fins); k++ {
+			if !w.onChain(n.Fins[k-1], n.Fins[k]) {
+				res.NonMonotone, res.MonoNode, res.MonoFrom, res.MonoTo = true, n.Name, w.nameOf(n.Fins[k-1]), w.nameOf(n.Fins[k])
 			}
 		}
 	}
